@@ -510,6 +510,16 @@ impl World {
             cas.sort();
             for (_, name, parents) in &cas {
                 for p in parents {
+                    // a suspended child is one that does not call in: the
+                    // refresh round must not wake it up (calling in would
+                    // unsuspend it)
+                    if p != "ta"
+                        && let Ok(pca) = cm.get_ca(&ca(p))
+                        && let Ok(det) = pca.get_child(&child_h(name))
+                        && det.state.is_suspended()
+                    {
+                        continue;
+                    }
                     let _ = self.sync_parent(name, p);
                 }
                 tasks.extend(self.pump()?);
